@@ -28,6 +28,15 @@ def edit_string(s: str, rng: random.Random) -> str:
     return s
 
 
+def _iter(m):
+    stack = [m]
+    while stack:
+        n = stack.pop()
+        yield n
+        if n.children:
+            stack.extend(n.children)
+
+
 def oracle_verdict(tree, sc) -> Optional[bool]:
     """Oracle-S verdict for an ISLa tree (after Oracle-G validation); None = abstain."""
     m = to_model(tree)
@@ -72,6 +81,55 @@ def run_api_op(kind, op, op_index, solver, sc, h, recog: Recognizer, world, reco
             sum(world.z3.fired.values()) > z3_faults_before
             or world.z3.natural_unknown > natural_unknown_before
         )
+
+    # ---------------- check on trees built by the harness (own random derivations):
+    # verdicts must depend on the *tree*, also when another tree with the same string
+    # was seen before (ambiguous grammars), and also for nodes with no children
+    if kind == "check_tree":
+        from engines.choicesim import derive_model, to_isla
+
+        ids = [20_000_000 + (op[2] % 1000) * 10_000]
+        results = []
+        for _ in range(rng.randint(1, 3)):
+            m = derive_model(grammar, "<start>", rng, rng.randint(1, 5), ids)
+            if sum(1 for _ in _iter(m)) > 150:
+                continue
+            if rng.random() < 0.5:
+                # the parser's representation of an epsilon expansion: no child at all
+                # (the fuzzer's is one child labelled "")
+                for n in _iter(m):
+                    if n.children is not None and len(n.children) == 1 and n.children[0].label == "" and n.label.startswith("<"):
+                        n.children = ()
+            try:
+                exp, _info = satisfies(m, sc["formula"])
+            except (Abstain, RecursionError):
+                continue
+            tree = to_isla(m)
+            try:
+                got = solver.check(tree)
+            except SimBudgetExceeded:
+                record["inconclusive"].append(f"op_work_cap:check_tree:{op_index}")
+                h["dead"] = True
+                return
+            except UnknownResultError:
+                if not z3_trouble():
+                    v("unknown_result_without_z3_trouble", f"check(tree {tree_yield(m)!r}) raised UnknownResultError although every Z3 query was decided")
+                continue
+            except Exception as exc:
+                if world.work.tripped:
+                    record["inconclusive"].append(f"op_work_cap:check_tree:{op_index}")
+                    h["dead"] = True
+                    return
+                sig = exception_signature(exc)
+                v("api_exception", f"check(tree {tree_yield(m)!r}): {sig['type']} at {sig['site']}: {sig['raw']}", sig)
+                continue
+            bump("api_inputs")
+            bump("api_check_tree")
+            results.append((tree_yield(m), got, exp))
+            if got != exp:
+                v("check_tree_disagrees_with_semantics", f"check(tree) = {got} for a tree of {tree_yield(m)!r}, specification says {exp}; constraint {sc['formula_text'][:200]}")
+        record["outcomes"].append([kind, i, results[:3]])
+        return
 
     # ---------------- choose the input
     base_kind = kind.replace("_mut", "")
